@@ -485,6 +485,10 @@ class SymInt(object):
 
     # comparisons
     def _cmp(self, o, f):
+        if isinstance(o, float) and o != o:
+            return f(0.0, o)          # NaN: every ordered comparison and == is False, != is True
+        if isinstance(o, float) and o in (float('inf'), float('-inf')):
+            return f(0.0, o)
         if isinstance(o, float):
             if o == int(o):
                 o = int(o)
